@@ -243,6 +243,9 @@ func cmdReplay(args []string) {
 			e := newExec(cc.U, w, id, r.Int63())
 			e.begin()
 			for _, c := range s.Calls {
+				if c.Op == "End" {
+					continue
+				}
 				c = mapCall(c, cc)
 				if *bits == 64 && !op64[c.Op] {
 					continue
@@ -320,6 +323,8 @@ func opFamilyMatch(f, op string) bool {
 		case "NextValue", "PreviousValue", "NextAbsentValue", "PreviousAbsentValue":
 			return true
 		}
+	case "iter":
+		return strings.HasPrefix(op, "It") || op == "Ranges" || op == "End"
 	case "ser":
 		return op == "Ser"
 	case "frozen":
@@ -339,4 +344,4 @@ var op64 = map[string]bool{"New": true, "Build": true, "BitmapOf": true, "Clone"
 	"RunOptimize": true, "SetCOW": true, "Detach": true, "And": true, "Or": true, "Xor": true, "AndNot": true, "AndS": true, "OrS": true,
 	"XorS": true, "AndNotS": true, "AndCard": true, "OrCard": true, "Intersects": true, "Equals": true, "FastOr": true, "FastAnd": true,
 	"ParOr": true, "FlipS": true, "Contains": true, "IsEmpty": true, "Card": true, "Min": true, "Max": true, "Rank": true, "Select": true,
-	"SelectAuto": true, "ToArray": true, "Ser64": true, "Load64": true}
+	"SelectAuto": true, "ToArray": true, "Ser64": true, "Load64": true, "ItNew": true, "ItTake": true, "ItPeek": true, "ItAdvance": true, "IterCb": true}
